@@ -493,6 +493,28 @@ pub fn directed(names: &[String]) -> Vec<Trace> {
         }
     }
     // a rejected file-selecting preference (no such braille code has no fallback problem; a missing style falls back)
+    // an accepted value must also survive calls that FAIL: the lazily read Braille/<code>/unicode-full.yaml is broken, the
+    // expression needs it, and every braille query (which saves, overrides and restores BrailleNavHighlight) fails inside
+    for code in ["Nemeth", "UEB", "CMU"] {
+        for style in ["All", "Off", "FirstChar"] {
+            for kind in [FaultKind::Empty, FaultKind::WrongTopType, FaultKind::Deleted] {
+                let mut steps = vec![Step::Env(EnvEvent::Fault { path: format!("{}/Braille/{}/unicode-full.yaml", MOUNT_A, code), kind: kind.clone() })];
+                steps.push(set("BrailleCode", code));
+                steps.push(set("BrailleNavHighlight", style));
+                steps.push(set("Verbosity", "Terse"));
+                for k in 0..4 {
+                    steps.push(Step::Call(Op::NodeFromPos(PosRef::Abs(k))));
+                }
+                steps.push(Step::Call(Op::BraillePos));
+                steps.push(Step::Call(Op::Braille(IdRef::Nth(2))));
+                steps.push(Step::Call(Op::GetPref("BrailleNavHighlight".into())));
+                steps.push(Step::Call(Op::SetMathml(ExprRef::Pool(2))));
+                steps.push(Step::Call(Op::Braille(IdRef::Nth(1))));
+                steps.push(Step::Call(Op::GetPref("BrailleNavHighlight".into())));
+                v.push(mk(format!("failing-braille-queries-{}-{}-{}", code, style, crate::faults::kind_name(&kind)), true, steps));
+            }
+        }
+    }
     v.push(mk("rejected-then-accepted".into(), true, vec![set("Language", "xx-yy"), set("BrailleCode", "NoSuchCode"), set("SpeechStyle", "NoSuchStyle"), set("Language", "toolong"), set("Pitch", "high"), set("Pitch", "2"), set("Bookmark", "yes"), set("Bookmark", "TRUE")]));
     v
 }
